@@ -57,6 +57,23 @@ theorem fee_rate_fits (a : Nat) (h : a ≤ U64_MAX) : a * 1000 ≤ U128_MAX ∧ 
   unfold U128_MAX
   omega
 
+theorem smapGet_insert {α : Type} (m : List (String × α)) (k k' : String) (x : α) :
+    smapGet (smapInsert m k x) k' = if k = k' then some x else smapGet m k' := by
+  induction m with
+  | nil => simp [smapInsert, smapGet]
+  | cons e m ih =>
+    obtain ⟨k0, v0⟩ := e
+    simp only [smapInsert]
+    by_cases h1 : k0 = k
+    · subst h1; simp [smapGet]; by_cases h2 : k0 = k' <;> simp [h2]
+    · by_cases h2 : k < k0
+      · simp [h1, h2, smapGet]
+      · simp only [h1, h2, if_false, smapGet, ih]
+        by_cases h3 : k0 = k'
+        · have : ¬ k = k' := fun h => h1 (h3.trans h.symm)
+          simp [h3, this]
+        · simp [h3]
+
 theorem range_length (a b : Nat) : (range a b).length = b - a := by simp [range]
 
 end VlsModel.Rs
